@@ -5,6 +5,9 @@ import (
 	"io"
 	"os"
 	"path/filepath"
+	"sync"
+	"syscall"
+	"time"
 )
 
 // Proc describes one invocation of the command-line front end: argv (without the
@@ -42,7 +45,34 @@ func RunCLI(run func(version string) int, p *Proc) ProcResult {
 			panic(err)
 		}
 	}
+	var feeders sync.WaitGroup
 	for name, ds := range p.Data {
+		if ds.OnRead != nil {
+			// the harness watches the reads: the file is a named pipe fed chunk by chunk,
+			// with a pause before each chunk so that a streaming reader has finished with
+			// what it already has when OnRead looks at its output
+			path := filepath.Join(dir, name)
+			if err := syscall.Mkfifo(path, 0o600); err != nil {
+				panic(err)
+			}
+			w, err := os.OpenFile(path, os.O_RDWR, 0)
+			if err != nil {
+				panic(err)
+			}
+			feeders.Add(1)
+			go func(ds *DocStream, w *os.File) {
+				defer feeders.Done()
+				defer w.Close()
+				for _, c := range ds.plan() {
+					time.Sleep(40 * time.Millisecond)
+					ds.OnRead(c.Delivered)
+					buf := make([]byte, 1<<20)
+					n, _ := emitChunk(ds, buf, c)
+					w.Write(buf[:n])
+				}
+			}(ds, w)
+			continue
+		}
 		b, _ := io.ReadAll(&DocStream{Items: ds.Items}) // injected read errors cannot live in a real file: not used by CLI harnesses
 		if err := os.WriteFile(filepath.Join(dir, name), b, 0o644); err != nil {
 			panic(err)
@@ -55,6 +85,9 @@ func RunCLI(run func(version string) int, p *Proc) ProcResult {
 	ents, _ := os.ReadDir(dir)
 	for _, e := range ents {
 		before[e.Name()] = true
+		if !e.Type().IsRegular() {
+			continue // a named pipe fed by the harness
+		}
 		b, _ := os.ReadFile(filepath.Join(dir, e.Name()))
 		old[e.Name()] = string(b)
 	}
@@ -87,15 +120,29 @@ func RunCLI(run func(version string) int, p *Proc) ProcResult {
 		}()
 		res.Exit = run("test")
 	}()
+	feeders.Wait()
 	ob, _ := os.ReadFile(filepath.Join(dir, ".stdout"))
 	eb, _ := os.ReadFile(filepath.Join(dir, ".stderr"))
 	res.Stdout, res.Stderr = string(ob), string(eb)
 	ents, _ = os.ReadDir(dir)
 	for _, e := range ents {
+		if !e.Type().IsRegular() {
+			continue
+		}
 		b, _ := os.ReadFile(filepath.Join(dir, e.Name()))
 		if !before[e.Name()] || (e.Name()[0] != '.' && string(b) != old[e.Name()]) {
 			res.Written[e.Name()] = string(b)
 		}
 	}
 	return res
+}
+
+// StdoutLen is the number of bytes written to standard output so far by the front end
+// running under RunCLI (natively: the size of the file standard output is redirected to).
+func StdoutLen() int {
+	fi, err := os.Stdout.Stat()
+	if err != nil {
+		return -1
+	}
+	return int(fi.Size())
 }
